@@ -266,9 +266,24 @@ impl Check for C20 {
         let os = SimOs::new();
         let mut registry = NodeRegistry::load(&root.join("registry.json")).expect("registry");
         cx.eval();
+        // one case in six (no fixed ports, so that several services can be asked for): a batch of two or three services
+        // of which a LATER one fails to install; the add then reports an error, the first service is installed all the
+        // same, and everything below (its upgrade in particular) is judged on that service
+        let mut o = o;
+        let partial = node_port.is_none() && metrics_port.is_none() && !pa.first && cx.rng.gen_bool(0.25);
+        if partial {
+            let count = cx.rng.gen_range(2..=3u16);
+            o.count = Some(count);
+            // the first service keeps the RPC port the case intends
+            o.rpc_port = Some(PortRange::Range(rpc_port, rpc_port + count - 1));
+            os.0.lock().expect("os").fail_nth_of = Some(("install".to_string(), cx.rng.gen_range(1..count as usize)));
+            cx.count("batch-adds-with-a-later-install-failing");
+        }
         let added = rt.block_on(add_node(o, &mut registry, &os, VerbosityLevel::Minimal));
+        os.0.lock().expect("os").fail_nth_of = None;
+        let added = if partial && added.is_err() && !registry.nodes.is_empty() { Ok(vec![]) } else { added.map(|_| vec![()]) };
         let install = os.0.lock().expect("os").installed_ctx.first().cloned();
-        let w = json!({"options": combo});
+        let w = json!({"options": combo, "batch_add_with_a_failed_install": partial});
         let (Ok(_), Some(install), Some(_)) = (&added, install, registry.nodes.first()) else {
             cx.violation("add-node-failed", format!("add_node failed for a valid option combination: {:?}", added.as_ref().err().map(|e| e.to_string())), w);
             let _ = std::fs::remove_dir_all(&root);
@@ -305,6 +320,13 @@ impl Check for C20 {
                 rt.block_on(m.start())
             };
             cx.count(if started.is_ok() { "started-before-upgrade" } else { "start-before-upgrade-failed" });
+            // ... and in half of those the process then goes away (crash, reboot) and the registry is refreshed, as every
+            // antctl command - upgrade included - does first: the service is found stopped; what the user configured stays
+            if started.is_ok() && cx.rng.gen_bool(0.5) {
+                os.0.lock().expect("os").procs.clear();
+                let refreshed = rt.block_on(ant_node_manager::refresh_node_registry(&mut registry, &os, false, false, false));
+                cx.count(if refreshed.is_ok() { "found-stopped-by-a-registry-refresh-before-upgrade" } else { "refresh-before-upgrade-failed" });
+            }
         }
         // ---- services added WITHOUT a port: half of them are started, stopped and started again, the node picking another
         //      port the second time (a dynamic port is free to change across restarts). The upgrade then pins the port
